@@ -152,7 +152,7 @@ def do_expand(t, stats):
     return out
 
 
-def replay(h, cls, stats):
+def replay_history(h, cls, stats, compare=True):
     """Returns (trace steps, list of (key, detail)).  Stops at the first disagreement."""
     real, expd, steps, bad = [], [], [], []
     for si, s in enumerate(h):
@@ -205,6 +205,10 @@ def replay(h, cls, stats):
         stats["acts"][a] = stats["acts"].get(a, 0) + 1
         projs = [project(x) for x in real]
         steps.append({"a": a, "t": t, "new": len(real) if new is not None else t, "arg": arg, "vals": vals, "res": res, "eq": eq, "heap": projs})
+        if not compare:
+            if res != "ok" and a != "set_tr" or (a == "set_tr" and res == "ok" and any(i < 0 or i >= len(projs[t - 1]["all"]) for i in arg)):
+                break
+            continue
         # ---- comparison with the model's expectation
         if res != s["res"]:
             if a == "set_tr" and res == "ok":
@@ -428,8 +432,8 @@ def run(tier, seed):
             raise lib.MachineryError(f"the TapeParams model violates its own invariant {g.invariant_violated}:\n" + g.out[-2000:])
         lib.require_ok(g, "TapeParamsGen")
         hh = [("exh%d" % depth, j["hist"]) for j in g.json_lines]
-        if len(hh) > 40000:
-            hh = rng.sample(hh, 40000)
+        if len(hh) > 25000:
+            hh = rng.sample(hh, 25000)
         hists += hh
         runs.append(g)
     n_exh_states = sum(x.distinct for x in runs)
@@ -441,7 +445,7 @@ def run(tier, seed):
     viol_by_key, traces, nontriv, samples = {}, [], set(), []
     for hi, (src, h) in enumerate(hists):
         cls = qp.tape.QuantumScript if hi % 3 else qp.tape.QuantumTape
-        steps, bad = replay(h, cls, stats)
+        steps, bad = replay_history(h, cls, stats)
         traces.append({"steps": steps})
         for key, detail in bad:
             d = viol_by_key.setdefault(key, [0, detail, h])
@@ -457,13 +461,13 @@ def run(tier, seed):
     hneg = json.loads(json.dumps(next(h for _, h in hists if any(x["a"] == "bind" for x in h))))
     kb = next(i for i, x in enumerate(hneg) if x["a"] == "bind")
     hneg[kb]["exp"]["all"][seq(hneg[kb]["arg"])[0]] += 1
-    _, badneg = replay(hneg, qp.tape.QuantumScript, {"acts": {}, "expand": 0, "expand_nontrivial": 0, "expand_explicit_indices_recomputed": 0, "drift": 0})
+    _, badneg = replay_history(hneg, qp.tape.QuantumScript, {"acts": {}, "expand": 0, "expand_nontrivial": 0, "expand_explicit_indices_recomputed": 0, "drift": 0})
     if not badneg:
         raise lib.MachineryError("negative control (perturbed expected parameter) accepted by the replay comparator")
     neg_ok = 1
 
     # ---------------- (C) code -> spec: seeded random deeper histories on the real API
-    n_walk, d_walk = (1500, 6) if tier == "quick" else (8000, 8)
+    n_walk, d_walk = (1500, 6) if tier == "quick" else (6000, 8)
     for wi in range(n_walk):
         h, steps = random_walk(rng, d_walk, qp.tape.QuantumScript if wi % 3 else qp.tape.QuantumTape, stats)
         hists.append(("walk", h))
@@ -475,7 +479,7 @@ def run(tier, seed):
 
     phases["random_histories"] = round(time.time() - T0, 1)
     # ---------------- trace validation of what the implementation reported (replayed and random histories)
-    cap = 2500 if tier == "quick" else 12000
+    cap = 2500 if tier == "quick" else 8000
     idx = [i for i in range(len(traces)) if hists[i][0] == "walk"]
     rest = [i for i in range(len(traces)) if hists[i][0] != "walk"]
     idx = sorted(idx + (rest if len(rest) <= cap else rng.sample(rest, cap)))
@@ -553,3 +557,25 @@ def run(tier, seed):
         "trainability through an expansion is read the way the workflow reads it: requires_grad flags on the parameters "
         "(qp.math.get_trainable_indices); qp.transforms.decompose recomputes explicit index lists, which is counted, not judged",
         "parameter values are scalars 0.1*k; provenance through a decomposition is told by absolute value (pass-through or negation)"])
+
+
+def replay(path, tier="quick", seed=0):
+    """./check C40 --replay FILE: perform the stored calls on real tapes again and let Trace_TapeParams.tla judge the recorded steps."""
+    d = json.loads(open(path).read())
+    hist, base = d["replay"]["history"], norm_exp(d["replay"]["base"])
+    stats = {"acts": {}, "expand": 0, "expand_nontrivial": 0, "expand_explicit_indices_recomputed": 0, "drift": 0}
+    h = [dict(x, exp=base, res="ok") for x in hist]          # expectations are not stored: only the outcome / trace verdict matters here
+    steps, _ = replay_history(h, qp.tape.QuantumScript, stats, compare=False)
+    wd = lib.workdir("C40", "replay")
+    (wd / "traces.json").write_text(json.dumps([{"steps": steps}]))
+    r = lib.run_tlc("Trace_TapeParams", lib.cfg(init="TInit", next_="TNext", constants={"NTRACES": 1, "Bases": "{}", "MaxSteps": 0, "MaxTapes": 0}),
+                    wd, env={"TRACE_FILE": str(wd / "traces.json")}, timeout=600)
+    lib.require_ok(r, "Trace_TapeParams (replay)")
+    v = next(t for t in r.tuples if t[0] == "V")
+    viol = []
+    if v[2] != "ok":
+        st = steps[v[3] - 1]
+        viol.append(Violation(key=d["key"], detail=f"replayed: Trace_TapeParams rejects step {v[3]} ({st['a']} on tape {st['t']}, arg={st['arg']}): {v[2]}",
+                              replay=d["replay"]))
+    return CheckResult(coverage={"states": r.distinct, "transitions": r.generated, "traces_validated_against_impl": 1, "evaluations": len(steps),
+                                 "distinct_nontrivial": 1, "rule": "replay of one stored history", "samples": [hist], "exhaustive": False}, violations=viol)
